@@ -82,3 +82,74 @@ def check_panic_sites(run, ctx):
     run.require('C16-R2', 'bodies scanned for panic sites', bodies, 400)
     run.require('C16-R2', 'reviewed environment sites', env, 4)
     return n
+
+
+DEBUG_ONLY = ('debug_assert', 'debug_assert_eq', 'debug_assert_ne')
+PURE_KINDS = ('Sget', 'S?', 'Slen', 'Qlen', 'Qiter', 'Siter', None)
+
+
+def _debug_only_effects(ctx, crate, need_role):
+    """[(body, block, description)] of cache updates inside a debug_assert! region, and the number of calls scanned"""
+    from .effects import classify
+    n = 0
+    out = []
+    for body in crate.bodies.values():
+        if need_role and ctx.role(body) is None:
+            continue
+        # the region that only exists with debug assertions: `debug_assert!(c)` is `if cfg!(debug_assertions) { assert!(c) }`;
+        # the switch on that constant carries the expansion chain, the blocks dominated by its true edge are the region
+        # (the tokens of the *argument* keep their own spans, so they cannot be recognised by their expansion)
+        region = set()
+        for sb in range(body.n):
+            st_ = body.term(sb)
+            if st_['k'] == 'switch' and any(m in DEBUG_ONLY for m in (st_.get('macros') or [])) and any(m.endswith('cfg') for m in st_.get('macros') or []):
+                false_t = [tb for v, tb in st_['targets'] if v == 0]
+                true_t = st_['otherwise'] if false_t else None
+                if true_t is not None and true_t not in false_t:
+                    region |= {b_ for b_ in range(body.n) if body.dominates(true_t, b_)}
+        for bi, t in body.calls():
+            n += 1
+            if bi not in region:
+                continue
+            cn = callee_name(t)
+            k = classify(t)
+            eff = None
+            if k not in PURE_KINDS:
+                eff = 'store / queue update (%s)' % (k if isinstance(k, str) else '/'.join(k))
+            elif cn.startswith('cachelito_core::') and not cn.endswith(('::is_expired', '::len', '::is_empty', '::contains_key')):
+                eff = 'call of %s' % (cn.rsplit('::', 2)[-2] + '::' + cn.rsplit('::', 1)[-1])
+            elif cn.startswith('core::sync::atomic::') and cn.rsplit('::', 1)[-1] in ('fetch_add', 'fetch_sub', 'store', 'swap', 'compare_exchange', 'fetch_update'):
+                eff = 'atomic update (%s)' % cn.rsplit('::', 1)[-1]
+            if eff:
+                out.append((body, bi, t, eff))
+    return out, n
+
+
+def check_no_effects_in_debug_assert(run, ctx, rule):
+    """the argument of debug_assert! is compiled out when debug assertions are off (release builds): a store / queue /
+    statistics update or a call of a library function written inside it silently disappears there.  The facts are built
+    with debug assertions on, so the code looks complete."""
+    n = 0
+    hits = 0
+    for crate in (ctx.core, ctx.fx_sync, ctx.fx_async):
+        found, m = _debug_only_effects(ctx, crate, crate is not ctx.core)
+        n += m
+        for (body, bi, t, eff) in found:
+            hits += 1
+            run.bad(rule, '%s/effect-inside-debug_assert' % ctx.label(body), '%s performs a %s inside `debug_assert!` (%s): the argument of debug_assert! is not evaluated in builds '
+                    'without debug assertions, so in a release build this step silently does not happen' % (body.name, eff, t.get('span')),
+                    site='%s (%s)' % (body.name, t.get('span')), oracle='no side effect inside debug_assert!')
+    if not hits:
+        run.ok(rule, 'no-effects-in-debug_assert', '%d calls scanned; none that updates the cache sits inside a debug_assert! region' % n)
+    run.require(rule, 'calls scanned for debug-only effects', n, 3000)
+    # planted positive and its twin in the selftest crate
+    sf, _ = _debug_only_effects(ctx, ctx.selftest, False)
+    names = {b.name.rsplit('::', 1)[-1] for (b, _, _, _) in sf}
+    if 'debug_only_effect' not in names:
+        run.bad(rule, 'fail-closed/selftest/debug_only_effect', 'fail-closed: the planted positive "debug_only_effect" in /verif/selftest was not flagged; the rule is blind',
+                oracle='selftest positive must be flagged')
+    else:
+        run.ok(rule, 'selftest/debug_only_effect', 'planted positive flagged')
+    if 'effect_then_debug_assert' in names:
+        run.bad(rule, 'fail-closed/selftest/negative', 'fail-closed: the negative twin effect_then_debug_assert was flagged')
+    return n
